@@ -3,6 +3,7 @@ package checks
 // C15 adversary: message generators driven by the tape.
 
 import (
+	"math/big"
 	"bytes"
 	"encoding/binary"
 	"fmt"
@@ -399,6 +400,28 @@ func (e *c15Env) wellFormed(adv *c15Peer, code uint64) *c15Action {
 		hs, desc := hashList()
 		return mk(hs, desc)
 	case c15Tx:
+		if t.Choose(6) == 0 {
+			// a double spend: two valid, correctly signed blocks of one funded account on the same
+			// previous block, sent as a, b, a - the pool keeps one and refuses the other
+			u := e.w.Users[t.Choose(len(e.w.Users))]
+			o := e.w.Users[t.Choose(len(e.w.Users))]
+			mkb := func(amount int64) *nom.AccountBlock {
+				tx, err := e.q.Sup.GenerateFromTemplate(&nom.AccountBlock{BlockType: nom.BlockTypeUserSend, Address: u.Address, ToAddress: o.Address,
+					TokenStandard: types.ZnnTokenStandard, Amount: big.NewInt(amount)}, u.Signer)
+				if err != nil || tx == nil {
+					return nil
+				}
+				return tx.Block
+			}
+			a, b := mkb(int64(1+t.Choose(1000))), mkb(int64(2000+t.Choose(1000)))
+			if a != nil && b != nil {
+				e.pmu.Lock()
+				e.pKnown[a.Hash], e.pKnown[b.Hash] = true, true
+				e.pmu.Unlock()
+				e.r.Probe("double-spend-pair-sent")
+				return mk([]*nom.AccountBlock{a, b, c15CloneBlock(a)}, "double spend a,b,a of "+u.Address.String()[:10])
+			}
+		}
 		n := []int{0, 1, 1, 2, 5, 40}[t.Choose(6)]
 		bs := []*nom.AccountBlock{}
 		for i := 0; i < n; i++ {
